@@ -33,19 +33,13 @@ def persist_replay_rule(ctx, rid):
     rr = ctx.rule(rid, "persist / replay agreement: record keys, like-named replay parameters, sow-time must-equality", floor=14)
     prog = ctx.prog
     crop = prog.need_cls(CROP + ".Crop")
-    si = crop.methods.get("save_info")
-    need(si is not None, "anchor lost: Crop.save_info")
+    si, rec, written_txt, restored = shared.record_table(ctx)
     ctx.touch(si)
-    rec = None
-    for nd, c, nm in all_calls(ctx, si):
-        if nm == CROP + ".write_to_disk" and c.args and isinstance(c.args[0], ast.Dict):
-            rec = c.args[0]
-    need(rec is not None, "idiom changed: save_info does not write a dict literal")
-    written = {k.value: v for k, v in zip(rec.keys, rec.values) if isinstance(k, ast.Constant)}
+    written = dict(written_txt)
     need(len(written) >= 7, "idiom changed: settings record has %d keys" % len(written))
     # record content: each key stores the like-named parameter / attribute
     for k, v in written.items():
-        t = norm(v)
+        t = v
         if k in ("combos", "cases", "fn_args", "constants"):
             good = t == k
         elif k == "farmer":
@@ -55,7 +49,7 @@ def persist_replay_rule(ctx, rid):
         if good:
             rr.ok("record[%r] = %s" % (k, t))
         else:
-            rr.bad(ctx.finding(rid, si, v, "the settings record stores %s under %r: what is replayed at reap time is not what was sown with" % (t, k), construct="record-content " + k), "record %s" % k)
+            rr.bad(ctx.finding(rid, si, rec, "the settings record stores %s under %r: what is replayed at reap time is not what was sown with" % (t, k), construct="record-content " + k), "record %s" % k)
     # readers
     n_reads = 0
     for m in crop.methods.values():
@@ -272,24 +266,43 @@ def replayable_rule(ctx, rid):
     core = ctx.prog.need_func(CORE)
     g = build_cfg(core.node)
     ctx.touch(core, g)
-    sh = [(n, c) for n, c, nm in all_calls(ctx, core, g) if nm == "random.shuffle"]
-    sd = [(n, c) for n, c, nm in all_calls(ctx, core, g) if nm == "random.seed"]
-    if not sh:
+    # the shuffle may live in the core or in a helper it calls
+    cands = [core] + [f for f in ctx.res.slice([core]) if f.module is core.module and f is not core]
+    found = 0
+    for fn in cands:
+        fg = build_cfg(fn.node)
+        sh = [(n, c) for n, c, nm in all_calls(ctx, fn, fg) if nm == "random.shuffle"]
+        sd = [(n, c) for n, c, nm in all_calls(ctx, fn, fg) if nm == "random.seed"]
+        for n, c in sh:
+            found += 1
+            ctx.touch(fn, fg)
+            seed_names = {"random", "int", "seed", "shuffle"} | set(fn.params)
+            good = [s for s, sc in sd if fg.completes_before(s.id, n.id) and names_in(sc) <= seed_names and (names_in(sc) & (set(fn.params) | {"shuffle"}))]
+            if not good:
+                rr.bad(ctx.finding(rid, fn, c, "random.shuffle is not preceded on every path by random.seed(<function of the shuffle value only>): sower and reaper processes draw different permutations", construct="shuffle-unseeded"), "seed dominates shuffle")
+                continue
+            s = good[0]
+            # the seed argument must be the caller's shuffle value when in a helper
+            if fn is not core:
+                sa = names_in(sd[0][1]) & set(fn.params)
+                okp = False
+                for cf, cc in ctx.res.callers_of(fn, within=[core]):
+                    from ..callgraph import bind_call
+                    b, _, _ = bind_call(cc, fn)
+                    if all(p_ in b and norm(b[p_]) == "shuffle" for p_ in sa):
+                        okp = True
+                if not okp:
+                    rr.bad(ctx.finding(rid, fn, sd[0][1], "the seed passed to %s is not the shuffle value" % fn.name, construct="seed-arg"), "seed from shuffle")
+                    continue
+            between = fg.reachable(start=s.id, blocked_nodes=[n.id]) - {s.id}
+            other = [x for x in between for cc in node_calls(fg.nodes[x]) if callee_name(ctx, fn, cc).startswith("random.") or callee_name(ctx, fn, cc).startswith("numpy.random")]
+            if other:
+                rr.bad(ctx.finding(rid, fn, fg.nodes[other[0]].stmt, "the random generator is used between seeding and shuffling", construct="random-between"), "nothing between seed and shuffle")
+            else:
+                rr.ok("%s: random.seed(int(<shuffle value>)) completes before random.shuffle with no other draw in between" % fn.name)
+    if not found:
         rr.ok("no shuffle in the core")
         return rr
-    for n, c in sh:
-        good = [s for s, sc in sd if g.completes_before(s.id, n.id) and names_in(sc) <= {"random", "int", "shuffle", "seed"} and "shuffle" in names_in(sc)]
-        if not good:
-            rr.bad(ctx.finding(rid, core, c, "random.shuffle is not preceded on every path by random.seed(<function of the shuffle value only>): sower and reaper processes draw different permutations", construct="shuffle-unseeded"), "seed dominates shuffle")
-            continue
-        s = good[0]
-        # nothing else uses `random` between seed and shuffle
-        between = g.reachable(start=s.id, blocked_nodes=[n.id]) - {s.id}
-        other = [x for x in between for cc in node_calls(g.nodes[x]) if callee_name(ctx, core, cc).startswith("random.") or callee_name(ctx, core, cc).startswith("numpy.random")]
-        if other:
-            rr.bad(ctx.finding(rid, core, g.nodes[other[0]].stmt, "the random generator is used between seeding and shuffling", construct="random-between"), "nothing between seed and shuffle")
-        else:
-            rr.ok("random.seed(int(shuffle)) completes before random.shuffle with no other draw in between")
     # no iteration over a set feeds settings / locs
     bad = []
     for n in g.nodes:
